@@ -20,6 +20,7 @@ import (
 	"bytes"
 	"encoding/binary"
 	"errors"
+	"unicode"
 	"unicode/utf16"
 
 	"github.com/sassoftware/relic/v8/lib/redblack"
@@ -224,5 +225,25 @@ func lessDirEnt(i, j interface{}) bool {
 	if e.NameLength != f.NameLength {
 		return e.NameLength < f.NameLength
 	}
-	return e.name < f.name
+	// MS-CFB 2.6.4: names of equal length are ordered by their upper-cased
+	// UTF-16 code units
+	n := int(e.NameLength)/2 - 1
+	for k := 0; k < n && k < len(e.NameRunes); k++ {
+		a, b := upperUnit(e.NameRunes[k]), upperUnit(f.NameRunes[k])
+		if a != b {
+			return a < b
+		}
+	}
+	return false
+}
+
+func upperUnit(u uint16) uint16 {
+	if u >= 0xd800 && u <= 0xdfff {
+		// surrogate halves are compared as they are
+		return u
+	}
+	if r := unicode.ToUpper(rune(u)); r <= 0xffff {
+		return uint16(r)
+	}
+	return u
 }
